@@ -27,6 +27,7 @@ import (
 
 	"github.com/prometheus/prometheus/model/histogram"
 	"github.com/prometheus/prometheus/model/labels"
+	"github.com/prometheus/prometheus/model/value"
 	"github.com/prometheus/prometheus/storage"
 	"github.com/prometheus/prometheus/tsdb"
 	"github.com/prometheus/prometheus/tsdb/chunkenc"
@@ -70,33 +71,165 @@ func (s smp) Type() chunkenc.ValueType {
 }
 func (s smp) Copy() chunks.Sample { return s }
 
-// gauge histograms of one fixed bucket layout: appending never cuts a chunk by itself; the
-// value id is carried by Sum.
+// Histogram contents are a function of the value id V (carried by Sum, so it survives any
+// re-encoding and identifies the sample):
+//
+//	V == staleV                     staleness marker (Sum = StaleNaN, no buckets)
+//	c  = V % 1000                   count level: zero bucket c, every bucket c+1 (a lower c after a
+//	                                higher one is a counter reset)
+//	L  = (V / 1000) % 4             bucket layout: 0 spans {0,1}; 1 spans {0,2}; 2 spans {0,1}{1,1};
+//	                                3 custom buckets (NHCB: schema -53, bounds 1,2,3, spans {0,2})
+//	sc = (V / 4000) % 2             exponential schema 0 / 1 (ignored for NHCB)
+//	g  = (V / 8000) % 2             0 gauge hint, 1 counter (hint unknown)
+//
+// V < 1000 is the "plain" domain: gauge histograms of one layout, where no appender ever cuts a
+// chunk by itself and chunk boundaries are those of the model. Anything else ("rich") makes the
+// histogram appenders cut / recode chunks (counter resets, layout and schema changes, gauge vs
+// counter, stale markers), which the model does not predict: such cases are flagged and compared
+// leniently on chunk boundaries, while holds still judges every chunk of the real output.
+const staleV = int64(-7777)
+
+func isRich(s S) bool { return s.K != 1 && (s.V >= 1000 || s.V == staleV) }
+
+type hparts struct {
+	stale   bool
+	c       int64
+	spans   []histogram.Span
+	nb      int
+	schema  int32
+	custom  []float64
+	counter bool
+}
+
+func parts(v int64) hparts {
+	if v == staleV {
+		return hparts{stale: true}
+	}
+	if v < 0 {
+		v = -v
+	}
+	p := hparts{c: v % 1000, counter: (v/8000)%2 == 1}
+	switch (v / 1000) % 4 {
+	case 0:
+		p.spans, p.nb = []histogram.Span{{Offset: 0, Length: 1}}, 1
+	case 1:
+		p.spans, p.nb = []histogram.Span{{Offset: 0, Length: 2}}, 2
+	case 2:
+		p.spans, p.nb = []histogram.Span{{Offset: 0, Length: 1}, {Offset: 1, Length: 1}}, 2
+	default:
+		p.spans, p.nb = []histogram.Span{{Offset: 0, Length: 2}}, 2
+		p.schema, p.custom = histogram.CustomBucketsSchema, []float64{1, 2, 3}
+	}
+	if p.custom == nil && (v/4000)%2 == 1 {
+		p.schema = 1
+	}
+	return p
+}
+
 func mkH(id int64) *histogram.Histogram {
-	return &histogram.Histogram{CounterResetHint: histogram.GaugeType, Schema: 0, Count: uint64(id) + 1, Sum: float64(id),
-		ZeroThreshold: 0.001, ZeroCount: uint64(id),
-		PositiveSpans: []histogram.Span{{Offset: 0, Length: 1}}, PositiveBuckets: []int64{1}}
+	p := parts(id)
+	if p.stale {
+		return &histogram.Histogram{Sum: math.Float64frombits(value.StaleNaN)}
+	}
+	h := &histogram.Histogram{Schema: p.schema, Sum: float64(id), PositiveSpans: p.spans, CustomValues: p.custom}
+	if !p.counter {
+		h.CounterResetHint = histogram.GaugeType
+	}
+	h.PositiveBuckets = make([]int64, p.nb)
+	h.PositiveBuckets[0] = p.c + 1 // deltas: all buckets hold c+1
+	h.Count = uint64(p.nb) * uint64(p.c+1)
+	if p.custom == nil {
+		h.ZeroThreshold, h.ZeroCount = 0.001, uint64(p.c)
+		h.Count += uint64(p.c)
+	}
+	return h
 }
 
 func mkFH(id int64) *histogram.FloatHistogram {
-	return &histogram.FloatHistogram{CounterResetHint: histogram.GaugeType, Schema: 0, Count: float64(id) + 1, Sum: float64(id),
-		ZeroThreshold: 0.001, ZeroCount: float64(id),
-		PositiveSpans: []histogram.Span{{Offset: 0, Length: 1}}, PositiveBuckets: []float64{1}}
+	p := parts(id)
+	if p.stale {
+		return &histogram.FloatHistogram{Sum: math.Float64frombits(value.StaleNaN)}
+	}
+	h := &histogram.FloatHistogram{Schema: p.schema, Sum: float64(id), PositiveSpans: p.spans, CustomValues: p.custom}
+	if !p.counter {
+		h.CounterResetHint = histogram.GaugeType
+	}
+	h.PositiveBuckets = make([]float64, p.nb)
+	for i := range h.PositiveBuckets {
+		h.PositiveBuckets[i] = float64(p.c + 1)
+	}
+	h.Count = float64(p.nb) * float64(p.c+1)
+	if p.custom == nil {
+		h.ZeroThreshold, h.ZeroCount = 0.001, float64(p.c)
+		h.Count += float64(p.c)
+	}
+	return h
 }
 
-func toSamples(l []S) []chunks.Sample {
-	r := make([]chunks.Sample, len(l))
-	for i, s := range l {
-		switch s.K {
-		case 2:
-			r[i] = smp{t: s.T, h: mkH(s.V)}
-		case 3:
-			r[i] = smp{t: s.T, fh: mkFH(s.V)}
-		default:
-			r[i] = smp{t: s.T, f: float64(s.V)}
+func idOf(f float64) int64 {
+	if value.IsStaleNaN(f) {
+		return staleV
+	}
+	return int64(f)
+}
+
+// encodeChunks builds real chunks from samples of one value type, cutting where the histogram
+// appenders cut (counter reset, schema / custom bounds change, ...) and following their recodes.
+func encodeChunks(l []S) ([]chunks.Meta, error) {
+	var out []chunks.Meta
+	var cur chunkenc.Chunk
+	var app chunkenc.Appender
+	var mint, maxt int64
+	flush := func() {
+		if cur != nil {
+			out = append(out, chunks.Meta{MinTime: mint, MaxTime: maxt, Chunk: cur})
 		}
 	}
-	return r
+	for i, s := range l {
+		if i == 0 {
+			var err error
+			switch s.K {
+			case 2:
+				cur = chunkenc.NewHistogramChunk()
+			case 3:
+				cur = chunkenc.NewFloatHistogramChunk()
+			default:
+				cur = chunkenc.NewXORChunk()
+			}
+			if app, err = cur.Appender(); err != nil {
+				return nil, err
+			}
+			mint = s.T
+		}
+		var nc chunkenc.Chunk
+		var recoded bool
+		var err error
+		switch s.K {
+		case 2:
+			nc, recoded, app, err = app.AppendHistogram(nil, 0, s.T, mkH(s.V), false)
+		case 3:
+			nc, recoded, app, err = app.AppendFloatHistogram(nil, 0, s.T, mkFH(s.V), false)
+		default:
+			f := float64(s.V)
+			if s.V == staleV {
+				f = math.Float64frombits(value.StaleNaN)
+			}
+			app.Append(0, s.T, f)
+		}
+		if err != nil {
+			return nil, err
+		}
+		if nc != nil {
+			if !recoded {
+				flush()
+				mint = s.T
+			}
+			cur = nc
+		}
+		maxt = s.T
+	}
+	flush()
+	return out, nil
 }
 
 func decodeIter(it chunkenc.Iterator) ([]S, error) {
@@ -105,13 +238,13 @@ func decodeIter(it chunkenc.Iterator) ([]S, error) {
 		switch vt {
 		case chunkenc.ValHistogram:
 			t, h := it.AtHistogram(nil)
-			out = append(out, S{t, 2, int64(h.Sum)})
+			out = append(out, S{t, 2, idOf(h.Sum)})
 		case chunkenc.ValFloatHistogram:
 			t, h := it.AtFloatHistogram(nil)
-			out = append(out, S{t, 3, int64(h.Sum)})
+			out = append(out, S{t, 3, idOf(h.Sum)})
 		default:
 			t, f := it.At()
-			out = append(out, S{t, 1, int64(f)})
+			out = append(out, S{t, 1, idOf(f)})
 		}
 	}
 	return out, it.Err()
@@ -278,14 +411,16 @@ func buildMem(bs BlkSpec) (*memBlock, error) {
 	for _, s := range ss {
 		ms := memSeries{lset: pool[s.L]}
 		for _, c := range s.Chunks {
-			m, err := chunks.ChunkFromSamples(toSamples(c))
+			metas, err := encodeChunks(c)
 			if err != nil {
 				return nil, err
 			}
-			m.Ref = chunks.ChunkRef(len(mb.all))
-			mb.all = append(mb.all, m.Chunk)
-			m.Chunk = nil
-			ms.chks = append(ms.chks, m)
+			for _, m := range metas {
+				m.Ref = chunks.ChunkRef(len(mb.all))
+				mb.all = append(mb.all, m.Chunk)
+				m.Chunk = nil
+				ms.chks = append(ms.chks, m)
+			}
 		}
 		mb.series = append(mb.series, ms)
 	}
@@ -496,8 +631,22 @@ func (r *runner) emit(spec *CaseSpec, desc map[string]any, in []Block, mode int,
 	for i, b := range in {
 		bl[i] = gBlock(b)
 	}
-	term := fmt.Sprintf("rCase %s %s %s %s %s %s %s %s %s %s", zz(int64(id)), zz(int64(mode)), gallina.Bool(compacting),
-		gallina.List(bl), zz(mint), zz(maxt), gallina.Bool(failed), gOut(out), gStats(st), gallina.Bool(qeq))
+	rich := false
+	for _, b := range append(append([]Block(nil), in...), out) {
+		for _, se := range b.Ser {
+			for _, c := range se.Chks {
+				for _, x := range c.Smp {
+					rich = rich || isRich(x)
+				}
+			}
+		}
+	}
+	if rich {
+		r.meta.Hit("rich-histograms")
+		desc["rich"] = true
+	}
+	term := fmt.Sprintf("rCase %s %s %s %s %s %s %s %s %s %s %s", zz(int64(id)), zz(int64(mode)), gallina.Bool(compacting),
+		gallina.List(bl), zz(mint), zz(maxt), gallina.Bool(failed), gOut(out), gStats(st), gallina.Bool(qeq), gallina.Bool(rich))
 	r.cf.Add(term)
 	r.bytes += len(term)
 	r.meta.Evaluations++
@@ -864,7 +1013,49 @@ func genSeries(r *gen.Rand, lo, hi, grid int64, n int, kinds []int, switchy bool
 	return out
 }
 
-func genCase(r *gen.Rand, big bool) *CaseSpec {
+// genRich: a histogram series as one scrape target would produce it: a counter level that mostly
+// grows, with restarts (counter resets), bucket layout changes (recode / reset), schema and
+// NHCB switches, gauge phases and staleness markers. Two blocks holding such a series over the
+// same window behave like two replicas of which one restarted: the interleaved stream is full
+// of counter resets inside the overlap.
+func genRich(r *gen.Rand, lo, hi, grid int64, n int, kinds []int, switchy bool) []S {
+	base := genSeries(r, lo, hi, grid, n, kinds, switchy, 2)
+	c := int64(r.Intn(900))
+	layout := int64(r.Intn(4))
+	if r.Chance(1, 2) {
+		layout = int64(r.Intn(2))
+	}
+	schema := int64(0)
+	counter := int64(1)
+	if r.Chance(1, 6) {
+		counter = 0
+	}
+	for i := range base {
+		c += int64(r.Intn(5))
+		if r.Chance(1, 8) {
+			c = int64(r.Intn(20)) // restart
+		}
+		if c > 999 {
+			c = 999
+		}
+		if r.Chance(1, 10) {
+			layout = int64(r.Intn(4))
+		}
+		if r.Chance(1, 15) {
+			schema = 1 - schema
+		}
+		if r.Chance(1, 25) {
+			counter = 1 - counter
+		}
+		base[i].V = c + 1000*layout + 4000*schema + 8000*counter
+		if r.Chance(1, 15) {
+			base[i].V = staleV
+		}
+	}
+	return base
+}
+
+func genCase(r *gen.Rand, big, rich bool) *CaseSpec {
 	cs := &CaseSpec{Compacting: !r.Chance(1, 8)}
 	nb := 1 + r.Intn(3)
 	if r.Chance(1, 3) {
@@ -889,6 +1080,10 @@ func genCase(r *gen.Rand, big bool) *CaseSpec {
 	pattern := r.Intn(5)
 	kinds := [][]int{{1}, {1}, {1}, {2}, {3}, {1, 2}, {1, 2, 3}}[r.Intn(7)]
 	switchy := r.Chance(1, 3)
+	if rich {
+		kinds = [][]int{{3}, {3}, {2}, {2, 3}, {1, 3}, {1, 2, 3}}[r.Intn(6)]
+		switchy = r.Chance(1, 4)
+	}
 	vals := int(r.PickI64(2, 3, 50))
 	perSeries := 4 + r.Intn(14)
 	maxChunk := 1 + r.Intn(8)
@@ -939,7 +1134,11 @@ func genCase(r *gen.Rand, big bool) *CaseSpec {
 				if big {
 					n = perSeries
 				}
-				chs = cutChunks(r, genSeries(r, lo, hi, grid, n, kinds, switchy, vals), maxChunk)
+				if rich {
+					chs = cutChunks(r, genRich(r, lo, hi, grid, n, kinds, switchy), maxChunk)
+				} else {
+					chs = cutChunks(r, genSeries(r, lo, hi, grid, n, kinds, switchy, vals), maxChunk)
+				}
 			}
 			if len(chs) > 0 {
 				bs.Ser = append(bs.Ser, SerSpec{L: l, Chunks: chs})
@@ -1045,6 +1244,14 @@ func corpus() []*CaseSpec {
 		}
 		return l
 	}
+	// a growing counter level: value id base+i at from+i*step
+	ctr := func(from, n, step int64, k int, base int64) []S {
+		var l []S
+		for i := int64(0); i < n; i++ {
+			l = append(l, S{from + i*step, k, base + i})
+		}
+		return l
+	}
 	return []*CaseSpec{
 		{Name: "two-blocks-same-series-different-values", Compacting: true, Blocks: []BlkSpec{
 			{Min: 0, Max: 31, Ser: []SerSpec{{L: 0, Chunks: [][]S{vals(fl(0, 10, 20, 30), 1)}}}},
@@ -1083,6 +1290,33 @@ func corpus() []*CaseSpec {
 			{Min: 0, Max: 11, Ser: []SerSpec{{L: 0, Chunks: [][]S{fl(0, 10)}}}},
 			{Min: 20, Max: 31, Ser: []SerSpec{{L: 0, Chunks: [][]S{fl(20, 30)}}, {L: 1, Chunks: [][]S{fl(25)}}}},
 			{Min: 40, Max: 51, Ser: []SerSpec{{L: 0, Chunks: [][]S{fl(40, 50)}}}}}},
+		// two replicas of one counter series, one restarted: levels far apart, samples interleaved
+		// in time, so the re-encoded stream has a counter reset at every other sample
+		{Name: "float-histogram-replica-restart-overlap", Compacting: true, Blocks: []BlkSpec{
+			{Min: 0, Max: 100, Ser: []SerSpec{{L: 2, Chunks: [][]S{ctr(0, 10, 10, 3, 8500)}}}},
+			{Min: 0, Max: 100, Ser: []SerSpec{{L: 2, Chunks: [][]S{ctr(5, 10, 10, 3, 8005)}}}}}},
+		{Name: "int-histogram-replica-restart-overlap", Compacting: true, Blocks: []BlkSpec{
+			{Min: 0, Max: 100, Ser: []SerSpec{{L: 2, Chunks: [][]S{ctr(0, 10, 10, 2, 8500)}}}},
+			{Min: 0, Max: 100, Ser: []SerSpec{{L: 2, Chunks: [][]S{ctr(5, 10, 10, 2, 8005)}}}}}},
+		{Name: "nhcb-float-replica-restart-overlap", Compacting: true, Blocks: []BlkSpec{
+			{Min: 0, Max: 100, Ser: []SerSpec{{L: 4, Chunks: [][]S{ctr(0, 10, 10, 3, 11500)}}}},
+			{Min: 0, Max: 100, Ser: []SerSpec{{L: 4, Chunks: [][]S{ctr(5, 10, 10, 3, 11005)}}}}}},
+		{Name: "nhcb-int-replica-restart-overlap", Compacting: true, Blocks: []BlkSpec{
+			{Min: 0, Max: 100, Ser: []SerSpec{{L: 4, Chunks: [][]S{ctr(0, 10, 10, 2, 11500)}}}},
+			{Min: 0, Max: 100, Ser: []SerSpec{{L: 4, Chunks: [][]S{ctr(5, 10, 10, 2, 11005)}}}}}},
+		// layout change (recode), schema change, NHCB switch, gauge phase and stale markers inside an overlap
+		{Name: "float-histogram-layout-schema-gauge-stale-overlap", Compacting: true, Blocks: []BlkSpec{
+			{Min: 0, Max: 100, Ser: []SerSpec{{L: 1, Chunks: [][]S{{{0, 3, 8010}, {10, 3, 8011}, {20, 3, 9012}, {30, 3, 9013}},
+				{{40, 3, 13014}, {50, 3, staleV}, {60, 3, 8001}, {70, 3, 11002}, {80, 3, 3}}}}}},
+			{Min: 5, Max: 96, Ser: []SerSpec{{L: 1, Chunks: [][]S{{{5, 3, 8010}, {15, 3, 10011}, {25, 3, 8012}},
+				{{35, 3, staleV}, {45, 3, 8013}, {55, 3, 12014}, {65, 3, 7}, {75, 3, 8}, {95, 3, 8900}}}}}}}},
+		{Name: "int-and-float-histogram-mixed-overlap-with-delete", Compacting: true, Blocks: []BlkSpec{
+			{Min: 0, Max: 100, Ser: []SerSpec{{L: 1, Chunks: [][]S{ctr(0, 5, 10, 2, 8100), ctr(50, 5, 10, 3, 8200)}}},
+				Del: []DelSpec{{Min: 20, Max: 60, Sel: -1}}},
+			{Min: 0, Max: 100, Ser: []SerSpec{{L: 1, Chunks: [][]S{ctr(5, 9, 10, 3, 8003)}}}}}},
+		{Name: "stale-floats-overlap", Compacting: true, Blocks: []BlkSpec{
+			{Min: 0, Max: 41, Ser: []SerSpec{{L: 0, Chunks: [][]S{{{0, 1, 1}, {10, 1, staleV}, {20, 1, 2}, {40, 1, staleV}}}}}},
+			{Min: 0, Max: 41, Ser: []SerSpec{{L: 0, Chunks: [][]S{{{5, 1, staleV}, {10, 1, 3}, {30, 1, 4}}}}}}}},
 		{Name: "negative-times-trim", Compacting: true, Mode: 1, Mint: -25, Maxt: -4, Blocks: []BlkSpec{
 			{Min: -40, Max: 1, Ser: []SerSpec{{L: 7, Chunks: [][]S{{{-40, 2, 1}, {-30, 2, 2}, {-25, 2, 3}}, {{-20, 3, 4}, {-5, 3, 5}, {-4, 3, 6}, {0, 3, 7}}}}},
 				Del: []DelSpec{{Min: -26, Max: -25, Sel: -1}}}}},
@@ -1364,11 +1598,12 @@ func main() {
 	for i := 0; i < n && r.bytes < budget; i++ {
 		rg := gen.Fork(f.Seed, i)
 		big := i%25 == 7
-		cs := genCase(rg, big)
+		rich := i%3 == 1
+		cs := genCase(rg, big, rich)
 		if len(cs.Blocks) == 0 {
 			continue
 		}
-		d := map[string]any{"gen": fmt.Sprintf("seed=%d/i=%d", f.Seed, i), "big": big}
+		d := map[string]any{"gen": fmt.Sprintf("seed=%d/i=%d", f.Seed, i), "big": big, "richgen": rich}
 		ew := 0
 		if i%6 == 0 {
 			ew = 1
